@@ -167,7 +167,11 @@ def check_c05(tier, seed):
     ck.ev.components = core.COMPONENTS_ENC; ck.ev.assumptions = list(ENC_ASSUME) + ['pinning itself (pthread_setaffinity_np) is recorded and not applied: the simulated machine decides the thread/segment geometry']
     core.build('plain'); rng = ck.rng
     bases = [({'enc_mode': 8}, {'kind': 'mix', 'seed': 3}, 8, (192, 192)), ({'enc_mode': 6, 'tile_columns': 1}, {'kind': 'moving', 'seed': 5}, 6, (256, 192)),
-             ({'enc_mode': 7, 'encoder_bit_depth': 10}, {'kind': 'mix', 'seed': 7}, 5, (192, 128))]
+             ({'enc_mode': 7, 'encoder_bit_depth': 10}, {'kind': 'mix', 'seed': 7}, 5, (192, 128)),
+             # every preset has its own tool set (per-thread caches, rate-estimation updates, pool-dependent paths): cover the slower ones too
+             ({'enc_mode': 5}, {'kind': 'moving', 'seed': 9}, 6, (192, 128)), ({'enc_mode': 4}, {'kind': 'moving', 'seed': 11}, 5, (128, 128))]
+    if tier != 'quick':
+        bases += [({'enc_mode': m}, {'kind': 'moving', 'seed': 20 + m}, 5, (192, 128)) for m in (0, 1, 2, 3)]
     nexp = 2 if tier == 'quick' else 24
     for i in range(nexp):
         bases.append((gen.swarm_cfg(rng, fields=[f for f in gen.SAFE if f != 'logical_processors'], nmax=3), gen.content(rng, kinds=['mix', 'moving', 'noise']), rng.randint(3, 8), (rng.choice([192, 256, 320]), rng.choice([192, 256]))))
@@ -181,7 +185,10 @@ def check_c05(tier, seed):
             c = copy.deepcopy(base); m = gen.machine(rng)
             if rng.random() < 0.12: m['cpuinfo'] = rng.choice([1, 2])
             c['machine'] = m
-            c['cfg']['logical_processors'] = rng.choice([0, 1, 2, 3, 4, 6, 8, 16, m['cores']])
+            if k < 4:   # the pool/segment geometry changes at core-count thresholds: always straddle them
+                c['cfg']['logical_processors'] = [2, 4, 6, 12][k]; m['cores'] = max(m['cores'], c['cfg']['logical_processors'])
+            else:
+                c['cfg']['logical_processors'] = rng.choice([0, 1, 2, 3, 4, 6, 8, 16, m['cores']])
             if rng.random() < 0.3: c['cfg']['unpin'] = rng.choice([0, 1])
             if rng.random() < 0.3: c['cfg']['target_socket'] = rng.choice([-1, 0, 1] if m['sockets'] > 1 else [-1, 0])
             if rng.random() < 0.4: c['sim'] = gen.schedule(rng, allow_buggify=False)
@@ -230,7 +237,11 @@ def check_c13(tier, seed):
     ck.ev.components = core.COMPONENTS_ENC; ck.ev.assumptions = list(ENC_ASSUME)
     variant = 'asan' if tier == 'quick' else 'plain'
     core.build(variant); rng = ck.rng
-    bases = [({'logical_processors': 1}, {'kind': 'mix', 'seed': 3}, 4, (64, 64))]
+    bases = [({'logical_processors': 1}, {'kind': 'mix', 'seed': 3}, 4, (64, 64)),
+             # features that consume *other* defaulted fields once they are switched on (the application sets the switch, not the sub-parameters)
+             ({'logical_processors': 1, 'use_fixed_qindex_offsets': 1, 'qindex_offsets': [0, 8, 16, 24, 32, 40], 'key_frame_qindex_offset': -8, 'hierarchical_levels': 3}, {'kind': 'moving', 'seed': 5}, 6, (64, 64)),
+             ({'logical_processors': 1, 'rate_control_mode': 2, 'target_bit_rate': 300000}, {'kind': 'moving', 'seed': 7}, 6, (64, 64)),
+             ({'logical_processors': 1, 'screen_content_mode': 1, 'enc_mode': 6}, {'kind': 'text', 'seed': 9}, 3, (128, 64))]
     for i in range(1 if tier == 'quick' else 12):
         cfgo = gen.swarm_cfg(rng, fields=gen.SAFE, nmax=3); cfgo['logical_processors'] = rng.choice([1, 2])
         bases.append((cfgo, gen.content(rng, kinds=['mix', 'moving']), rng.randint(2, 6), gen.size(rng)))
@@ -303,7 +314,7 @@ def check_c27(tier, seed):
     ck.ev.components = core.COMPONENTS_ENC; ck.ev.assumptions = list(ENC_ASSUME)
     core.build('plain'); rng = ck.rng
     bases = [({'logical_processors': 2}, {'kind': 'mix', 'seed': 3}, 12, (64, 64)), ({'logical_processors': 4, 'hierarchical_levels': 3, 'enc_mode': 7}, {'kind': 'moving', 'seed': 5}, 20, (64, 64))]
-    for i in range(2 if tier == 'quick' else 20):
+    for i in range(5 if tier == 'quick' else 20):
         cfgo = gen.swarm_cfg(rng, fields=['enc_mode', 'hierarchical_levels', 'look_ahead_distance', 'enable_tpl_la', 'pred_structure', 'intra_period_length'], nmax=3); cfgo['logical_processors'] = rng.choice([1, 2, 4])
         bases.append((cfgo, gen.content(rng, kinds=['mix', 'moving']), rng.randint(4, 30), (64, 64)))
     fams = []
@@ -311,6 +322,9 @@ def check_c27(tier, seed):
         base = mk(ck, cfgo, cont, n, wh, g={'pacing': 'each'}, oracles={'decode': 0, 'parse': 0, 'order': 1}); fam = [base]
         for pacing, extra in [('every_k', {'k': rng.randint(2, 7)}), ('random', {'pseed': rng.randint(1, 999)}), ('random', {'pseed': rng.randint(1, 999), 'stall': rng.randint(1, 300)}), ('none', {}), ('each', {'stall': rng.randint(50, 2000)})][:4 if tier == 'quick' else 5]:
             c = gen.regen(base, pacing=pacing, **extra); c['sim'] = gen.schedule(rng, allow_buggify=False); fam.append(c)
+            if pacing in ('every_k', 'random'):
+                # a slow application: between any two of its steps (also in the middle of an API call) the library runs until it has nothing left to do
+                c2 = copy.deepcopy(c); c2['sim'] = {'policy': 'starve', 'starve_tid': 0, 'seed': rng.randint(1, 10**6)}; fam.append(c2); ck.ev.fault('slow_application')
         fams.append(fam)
     flat = [c for fam in fams for c in fam]
     rs = pmap(lambda c: run_case(c, 'plain'), flat, variant='plain'); i = 0
@@ -389,7 +403,7 @@ def check_c19(tier, seed):
                   '(shown KEY frames for IDR); oracle 2: a fresh dav1d fed from any packet with a shown key frame yields exactly the full-stream pictures for those positions; distinct = distinct cases')
     ck.ev.components = core.COMPONENTS_ENC; ck.ev.assumptions = list(ENC_ASSUME)
     core.build('plain'); rng = ck.rng; cases = []
-    periods = [-1, 0, 1, 2, 3, 4, 7, 8, 15, 16] if tier == 'quick' else [-1] + list(range(0, 34))
+    periods = [-1, 0, 1, 2, 3, 4, 5, 7, 8, 11, 15, 16, 23, 31] if tier == 'quick' else [-1] + list(range(0, 34))
     for P in periods:
         for irt in (1, 2):
             hl = rng.choice([2, 3, 4]) if tier == 'quick' else rng.choice([0, 1, 2, 3, 4, 5])
@@ -407,7 +421,7 @@ def check_c19(tier, seed):
 def check_c26(tier, seed):
     return single_check('C26', tier, seed, {'decode': 1, 'parse': 0, 'recon_compare': 0, 'sse': 1, 'order': 0},
         [({'stat_report': 1}, {'kind': 'mix', 'seed': 3}, 10, (64, 64)), ({'stat_report': 1, 'tf_level': 0}, {'kind': 'moving', 'seed': 4}, 9, (72, 66)), ({'stat_report': 1, 'hierarchical_levels': 3, 'enable_overlays': 1, 'enc_mode': 6}, {'kind': 'moving', 'seed': 5}, 18, (64, 64))],
-        16, 200, 'stat_report=1, 8-bit, sizes incl. non-multiples of 8, temporal filtering on/off, all hierarchical levels; film grain and superres off (the code measures before those stages); oracle: for every packet luma/cb/cr SSE == sum (submitted - dav1d-decoded)^2 over the visible area mod 2^32; distinct = distinct cases',
+        40, 200, 'stat_report=1, 8-bit, sizes incl. non-multiples of 8, temporal filtering on/off, all hierarchical levels; film grain and superres off (the code measures before those stages); oracle: for every packet luma/cb/cr SSE == sum (submitted - dav1d-decoded)^2 over the visible area mod 2^32; distinct = distinct cases',
         force={'stat_report': 1, 'film_grain_denoise_strength': 0, 'superres_mode': 0, 'encoder_bit_depth': 8}, fields_quick=['enc_mode', 'hierarchical_levels', 'tf_level', 'qp', 'logical_processors', 'enable_overlays', 'pred_structure', 'intra_period_length'], kinds=['mix', 'moving', 'noise', 'hgrad'])
 
 TOOL_SWITCHES = [('disable_dlf_flag', 1, 0, 'noise'), ('cdef_level', 0, 1, 'noise'), ('enable_restoration_filtering', 0, 1, 'noise'), ('palette_level', 0, 6, 'text'), ('intrabc_mode', 0, 1, 'text'),
@@ -431,6 +445,13 @@ def check_c20(tier, seed):
                 if field == 'superres_mode' and val: cfgo.update({'superres_denom': 12, 'superres_kf_denom': 12})
                 n = rng.randint(4, 7)
                 cases.append(mk(ck, cfgo, {'kind': kind, 'seed': rng.randint(1, 999)}, n, rng.choice([(64, 64), (128, 64), (96, 96)]), oracles={'decode': 0, 'parse': 1, 'tools': 1, 'tool_usage': 1, 'order': 0}))
+    # interactions: a switch must stay off when *other* tools (screen-content tools, palette, intrabc) are active, on content where both would pay off
+    for (field, off) in [('disable_cfl_flag', 1), ('filter_intra_level', 0), ('palette_level', 0), ('intrabc_mode', 0), ('disable_dlf_flag', 1), ('cdef_level', 0), ('enable_restoration_filtering', 0)]:
+        for pr in ([8, 6, 4] if tier == 'quick' else [8, 7, 6, 5, 4, 3, 2]):
+            cfgo = {field: off, 'enc_mode': pr, 'screen_content_mode': 1, 'logical_processors': rng.choice([1, 2])}
+            if field != 'palette_level': cfgo['palette_level'] = 6
+            if field != 'intrabc_mode' and rng.random() < 0.5: cfgo['intrabc_mode'] = 1
+            cases.append(mk(ck, cfgo, {'kind': 'text_cfl', 'seed': rng.randint(1, 999)}, 3, (256, 192) if pr <= 6 else (128, 128), oracles={'decode': 0, 'parse': 1, 'tools': 1, 'tool_usage': 1, 'order': 0}))
     tiles = [(tc, tr, wh) for tc in range(0, 5) for tr in range(0, 7) for wh in [(64, 64), (256, 128), (512, 256)]]
     rng.shuffle(tiles)
     for (tc, tr, wh) in tiles[:14 if tier == 'quick' else 105]:
@@ -464,7 +485,7 @@ def check_c22(tier, seed):
     ck.ev.components = core.COMPONENTS_ENC; ck.ev.assumptions = list(ENC_ASSUME)
     core.build('plain'); rng = ck.rng
     gops = [{'hierarchical_levels': 4}, {'hierarchical_levels': 3, 'intra_period_length': 63, 'intra_refresh_type': 1}, {'pred_structure': 1, 'hierarchical_levels': 3}, {'hierarchical_levels': 5, 'intra_period_length': -1}]
-    lens = [300, 280] if tier == 'quick' else [2100, 4200, 2100, 2300]
+    lens = [300, 280, 420, 330] if tier == 'quick' else [2100, 4200, 2100, 2300]
     cases = []
     for i, n in enumerate(lens):
         g = dict(gops[(i + seed) % len(gops)]); g.update({'enc_mode': 8, 'logical_processors': 2, 'intra_period_length': g.get('intra_period_length', -1)})
@@ -493,7 +514,7 @@ def check_c23(tier, seed):
     rounds = 0
     while True:
         cases = []
-        for i in range(400 if tier == 'quick' else 3000):
+        for i in range(1500 if tier == 'quick' else 3000):
             poller = rng.random() < 0.2
             srm = {'objects': rng.randint(1, 6), 'producers': rng.randint(1, 4), 'consumers': 1 if poller else rng.randint(1, 4), 'per_producer': rng.randint(1, 12), 'poller': int(poller), 'extra_refs': rng.choice([0, 0, 1, 2, 3]), 'releasers': rng.randint(1, 2), 'body_yields': rng.choice([0, 1, 2])}
             if rng.random() < 0.15: srm['early_shutdown_after'] = rng.randint(0, srm['producers'] * srm['per_producer'])
@@ -543,7 +564,7 @@ def check_c24(tier, seed):
         seg = {'w': w, 'h': h, 'cols': sc, 'rows': sr, 'workers': nw, 'pictures': pics, 'w2': w2 or w, 'h2': h2 or h, 'max_cols': max(sc, 1), 'max_rows': max(sr, 1), 'body_yields': rng.choice([0, 1, 1, 2])}
         cases.append({'world': 'seg', 'seg': seg, 'sim': dict(pol or gen.schedule(rng, horizon=2000, nthreads=nw + 1), step_limit=20000000)})
     if tier == 'quick':
-        for i in range(500):
+        for i in range(1500):
             w, h = rng.randint(1, 20), rng.randint(1, 14)
             if rng.random() < 0.1: w, h = rng.randint(30, 65), rng.randint(17, 34)
             add(w, h, rng.randint(1, min(8, 60)), rng.randint(1, 8), rng.randint(1, 8), pics=rng.randint(1, 3), w2=rng.randint(1, 20), h2=rng.randint(1, 14))
